@@ -229,7 +229,7 @@ def run(prop, judge, tier, seed, t0, cls="monoidal", invariants=(), drift=False,
         rows = core.read_ndjson(trace_file)
         if len(rows) != len(verdicts):
             raise core.Machinery("verdict count mismatch")
-        rejected, clause_count, accepted_hist = [], Counter(), 0
+        rejected, clause_count, accepted_hist = core.track([]), Counter(), 0
         for t, v in zip(rows, verdicts):
             if len(v) != len(t["calls"]):
                 raise core.Machinery("verdict count mismatch in a history")
